@@ -87,6 +87,7 @@ func buildVC(w *World, u *Unit) (ex *Exec, refused string) {
 			v := ex.freshValPre(p.Type(), "p_"+p.Name())
 			args = append(args, v)
 		}
+		ex.entryArgs = args
 		for _, fv := range fn.FreeVars {
 			v := ex.freshValPre(fv.Type(), "fv_"+fv.Name())
 			bind = append(bind, v)
